@@ -621,6 +621,8 @@ def check_C19(tier, seed):
     nev = 0
     with open(inp, "w") as f:
         for e in workload():
+            if e["op"] in ("fixedzone", "now", "tzif", "tzstring", "resolve", "posixtz", "local"):
+                continue                      # not part of the allocation-free API
             if e["op"] in ("find",):
                 e = {"op": "findn", "a": dict(e["a"], n=8)}
             if e["op"] == "lookup":
